@@ -78,6 +78,7 @@ struct Geom {
   std::unique_ptr<PointCloud> pc;   // a Mesh when is_mesh
   Mesh *mesh() const { return static_cast<Mesh *>(pc.get()); }
   std::string shape;
+  bool wide32 = false;    // some int32 / uint32 attribute holds values of the whole type or on its limits (value classes 2, 3 of random_value)
 };
 
 inline Geom gen_geometry(vrt::Rng &r, bool want_mesh, const GenParams &gp) {
@@ -166,6 +167,7 @@ inline Geom gen_geometry(vrt::Rng &r, bool want_mesh, const GenParams &gp) {
     PointAttribute *att = pc->attribute(id);
     const int nv = d.identity ? np : d.nvals;
     const int cls = r.range(0, 3);
+    if (cls >= 2 && (d.dt == DT_INT32 || d.dt == DT_UINT32)) g.wide32 = true;
     std::vector<uint8_t> buf(64);
     for (int v = 0; v < nv; ++v) {
       random_value(r, d.dt, d.nc, cls, buf.data());
@@ -272,6 +274,7 @@ struct Opt {
   int explicit_att = -1;   // attribute quantised with SetAttributeExplicitQuantization(bits, explicit_dims < components, origin, range)
   int explicit_dims = 0;
   float explicit_origin = -3000.f, explicit_range = 8000.f;
+  bool compress_conn = false;   // sequential meshes: global option "compress_connectivity" (delta + entropy coded indices instead of stored indices)
 };
 
 inline Opt gen_options(vrt::Rng &r, const Geom &g) {
@@ -288,6 +291,14 @@ inline Opt gen_options(vrt::Rng &r, const Geom &g) {
     o.pred = preds[r.range(0, 6)];
   }
   o.expert = r.coin(3, 4);
+  o.compress_conn = r.coin(1, 3);
+  // Observation O3: the constrained multi-parallelogram ENCODER sizes an entropy histogram by the largest residual symbol (gigabytes for 32-bit
+  // wide values; the process is killed by the kernel, not by the codec).  No property speaks about encoder memory: geometries with wide 32-bit
+  // attributes stay away from that one scheme (explicitly, and as the default of Edgebreaker at speeds 0 and 1).
+  if (g.wide32) {
+    if (o.pred == MESH_PREDICTION_CONSTRAINED_MULTI_PARALLELOGRAM) o.pred = MESH_PREDICTION_PARALLELOGRAM;
+    if (o.es < 2) o.es = 2;
+  }
   for (int a = 0; a < g.pc->num_attributes(); ++a) {
     const PointAttribute *att = g.pc->attribute(a);
     int q = 0;
@@ -319,6 +330,7 @@ inline Encoded encode(const Geom &g, const Opt &o) {
     if (o.submethod >= 0) { enc->SetEncodingSubmethod(o.submethod); enc->options().SetGlobalInt("edgebreaker_method", o.submethod); }
     enc->SetUseBuiltInAttributeCompression(o.builtin);
     if (o.split >= 0) enc->options().SetGlobalBool("split_mesh_on_seams", o.split != 0);
+    if (o.compress_conn) enc->options().SetGlobalBool("compress_connectivity", true);
     for (int a = 0; a < (int)o.qbits.size(); ++a) {
       if (a == o.explicit_att) { const float origin[4] = {o.explicit_origin, o.explicit_origin, o.explicit_origin, o.explicit_origin}; enc->SetAttributeExplicitQuantization(a, std::max(8, o.qbits[a]), o.explicit_dims, origin, o.explicit_range); }
       else if (o.qbits[a] > 0) enc->SetAttributeQuantization(a, o.qbits[a]);
@@ -335,6 +347,7 @@ inline Encoded encode(const Geom &g, const Opt &o) {
     if (o.method >= 0) enc.SetEncodingMethod(g.is_mesh ? (o.method ? MESH_EDGEBREAKER_ENCODING : MESH_SEQUENTIAL_ENCODING)
                                                        : (o.method ? POINT_CLOUD_KD_TREE_ENCODING : POINT_CLOUD_SEQUENTIAL_ENCODING));
     if (o.submethod >= 0) enc.options().SetGlobalInt("edgebreaker_method", o.submethod);
+    if (o.compress_conn) enc.options().SetGlobalBool("compress_connectivity", true);
     // the type-keyed API: one setting per attribute type (first attribute of the type decides)
     std::set<int> seen;
     for (int a = 0; a < (int)o.qbits.size(); ++a) {
